@@ -92,16 +92,45 @@ def run_parser_property(prop, evals=None, N=None, filt=None, level_text='', job=
     results = []
     workers = int(os.environ.get('VERIF_JOBS', '16'))
     side = {}
-    with ProcessPoolExecutor(workers) as ex:
+    lost = []
+    ex = ProcessPoolExecutor(workers)
+    try:
+        from concurrent.futures import wait, FIRST_COMPLETED
         sidef = {k: ex.submit(fn, t) for k, fn in (side_jobs or {}).items()}
-        futs = [ex.submit(job or props.grammar_job, j) for j in jobs]
-        for f in as_completed(futs): results.append(f.result())
-        for k, f in sidef.items(): side[k] = f.result()
+        futs = {ex.submit(job or props.grammar_job, j): j[0].name for j in jobs}
+        pending = set(futs) | set(sidef.values()); stall = 0
+        STALL = int(os.environ.get('VERIF_STALL', 900 if t == 'quick' else 2400))
+        while pending:
+            done, pending = wait(pending, timeout=60, return_when=FIRST_COMPLETED)
+            if not done:
+                # nothing finished for a long time: a job that never returns (a result that got lost between the processes, a
+                # worker that died) must not hang the check - what is still pending is reported as inconclusive
+                stall += 60
+                if stall >= STALL:
+                    lost = sorted(futs.get(f, 'side job') for f in pending); break
+                continue
+            stall = 0
+            for f in done:
+                if f in futs:
+                    try: results.append(f.result())
+                    except Exception as e: lost.append(f'{futs[f]} ({e!r})')
+        for k, f in sidef.items():
+            if f.done() and not f.cancelled():
+                try: side[k] = f.result()
+                except Exception as e: lost.append(f'side job {k} ({e!r})')
+    finally:
+        procs = list((getattr(ex, '_processes', None) or {}).values())
+        ex.shutdown(wait=False, cancel_futures=True)
+        if lost:
+            for p_ in procs:
+                try: p_.kill()
+                except Exception: pass
     results.sort(key=lambda r: r['name'])
     ec = extra(results) if extra else {}
     extra_viol = []; extra_inc = []
     for k, v in side.items():
         ec[k] = v.get('cov'); extra_viol += v.get('viol', []); extra_inc += v.get('inconclusive', [])
+    extra_inc += [f'job did not return: {x}' for x in lost]
     return finish(prop, results, N, t, sd, t0, extra_cov=ec or None, extra_viol=extra_viol, extra_inc=extra_inc)
 
 KNOWN_NONCOMPILING = ('cannot find value `start`', '`return;` in a function whose return type')
@@ -257,7 +286,7 @@ def main(argv):
     if prop == 'C15':
         def gsel(t, sd):
             gs = select('C15', t, sd)
-            gs = [g for g in gs if g.meta.get('family') not in ('near_miss', 'pairs', 'zero-progress') and not g.name.endswith('_sym')]
+            gs = [g for g in gs if g.meta.get('family') not in ('pairs', 'zero-progress') and not g.name.endswith('_sym')]
             if t == 'quick':      # every third coverage grammar + all curated/random
                 cov = [g for g in gs if g.meta.get('family') == 'coverage']
                 gs = [g for g in gs if g.meta.get('family') != 'coverage'] + cov[sd % 3::3]
